@@ -1,6 +1,7 @@
 package main
 
 import (
+	"context"
 	"crypto/sha1"
 	"encoding/json"
 	"fmt"
@@ -653,6 +654,28 @@ func nativeReplay(path string, kind string) (string, string) {
 	cmd.Env = append(os.Environ(), "GOFLAGS=-mod=mod", "GOPROXY=off", "GOSUMDB=off", "GOTOOLCHAIN=local", "VF_REPLAY="+path)
 	out, _ := cmd.CombinedOutput()
 	txt := string(out)
+	if strings.Contains(txt, "flag provided but not defined: -test.") {
+		// the package under test parses os.Args itself while it is initialised (cmd/samaritan/flag)
+		// and rejects the flags `go test` passes to the test binary: build the test binary and
+		// run it without any argument (it then runs its only test, the replay)
+		bin := filepath.Join(tmp, "replay.test")
+		bc := exec.Command("go", "test", "-c", "-vet=off", "-overlay", ovf, "-o", bin, "./"+rf.Pkg)
+		bc.Dir = repoDir
+		bc.Env = cmd.Env
+		if bout, err := bc.CombinedOutput(); err != nil {
+			return "build-error", tail(string(bout), 3000)
+		}
+		ctx, cancel := context.WithTimeout(context.Background(), 25*time.Second)
+		defer cancel()
+		rc := exec.CommandContext(ctx, bin)
+		rc.Dir = filepath.Join(repoDir, rf.Pkg)
+		rc.Env = cmd.Env
+		out, _ = rc.CombinedOutput()
+		txt = string(out)
+		if ctx.Err() != nil {
+			txt += "\ntest timed out"
+		}
+	}
 	switch {
 	case strings.Contains(txt, "VF-REPRODUCED"):
 		i := strings.Index(txt, "VF-REPRODUCED")
